@@ -508,4 +508,180 @@ theorem decBody_encBody {X Y : Type} [DecidableEq X] (F : Flavour X Y) (wfc : Y 
       simp only [Value.WF] at hwf
       simp only [decBody, Value.kind, hF.dec_enc c body rest hwf h]
 
+/-! ### encode ∘ decode -/
+
+theorem encBody_decBody {X Y : Type} [DecidableEq X] (F : Flavour X Y) (wfc : Y → Prop) (hF : F.Lawful wfc)
+    (max max' : Nat) (rem : Nat) :
+    ∀ (vk : VK X) (bs : Bytes) (v : Value X Y) (rest : Bytes), decBody F max rem vk bs = .ok (v, rest) →
+      v.kind F = vk ∧ v.WF F.utf8 wfc ∧ ∃ body, encBody F max' rem v = .ok body ∧ bs = body ++ rest := by
+  induction rem with
+  | zero => intro vk bs v rest h; simp [decBody] at h
+  | succ rem ih =>
+    intro vk bs v rest h
+    have hk := hF.kinds
+    have hfield : ∀ (bs : Bytes) (a : Value X Y) (rest' : Bytes),
+        decField F (decBody F max rem) bs = .ok (a, rest') →
+        a.WF F.utf8 wfc ∧ ∃ b, encField F (encBody F max' rem) a = .ok b ∧ bs = b ++ rest' := by
+      intro bs a rest' ha
+      simp only [decField] at ha
+      split at ha
+      · simp at ha
+      · rename_i vk' bs' hvk
+        have := readValueKind_ok F.kc hk _ _ _ hvk
+        subst this
+        obtain ⟨hkind, hwf, b, hb, rfl⟩ := ih _ _ _ _ ha
+        refine ⟨hwf, VK.toU8 F.kc vk' :: b, ?_, by simp⟩
+        simp [encField, hb, hkind]
+    have helem : ∀ (ek : VK X) (bs : Bytes) (a : Value X Y) (rest' : Bytes),
+        decBody F max rem ek bs = .ok (a, rest') →
+        a.WF F.utf8 wfc ∧ ∃ b, encElem F ek (encBody F max' rem) a = .ok b ∧ bs = b ++ rest' := by
+      intro ek bs a rest' ha
+      obtain ⟨hkind, hwf, b, hb, rfl⟩ := ih _ _ _ _ ha
+      refine ⟨hwf, b, ?_, rfl⟩
+      simp [encElem, hb, hkind]
+    have hentry : ∀ (kk vk : VK X) (bs : Bytes) (e : Value X Y × Value X Y) (rest' : Bytes),
+        decEntry kk vk (decBody F max rem) bs = .ok (e, rest') →
+        (e.1.WF F.utf8 wfc ∧ e.2.WF F.utf8 wfc) ∧ ∃ b, encEntry F kk vk (encBody F max' rem) e = .ok b ∧ bs = b ++ rest' := by
+      intro kk vk bs e rest' ha
+      simp only [decEntry] at ha
+      split at ha
+      · simp at ha
+      · rename_i k b' hkd
+        split at ha
+        · simp at ha
+        · rename_i v b'' hvd
+          simp at ha
+          obtain ⟨rfl, rfl⟩ := ha
+          obtain ⟨hkind1, hwf1, kb, hkb, rfl⟩ := ih _ _ _ _ hkd
+          obtain ⟨hkind2, hwf2, vb, hvb, rfl⟩ := ih _ _ _ _ hvd
+          refine ⟨⟨hwf1, hwf2⟩, kb ++ vb, ?_, by simp⟩
+          simp [encEntry, hkb, hvb, hkind1, hkind2]
+    cases vk with
+    | bool =>
+      simp only [decBody] at h
+      split at h
+      · simp at h
+      · rename_i b bs' hb
+        simp at h
+        obtain ⟨rfl, rfl⟩ := h
+        have := decBool_ok _ _ _ hb
+        subst this
+        exact ⟨rfl, trivial, _, rfl, rfl⟩
+    | int k =>
+      simp only [decBody] at h
+      split at h
+      · simp at h
+      · rename_i x bs' hb
+        simp at h
+        obtain ⟨rfl, rfl⟩ := h
+        have := decInt_ok _ _ _ _ hb
+        subst this
+        exact ⟨rfl, trivial, _, rfl, rfl⟩
+    | string =>
+      simp only [decBody] at h
+      split at h
+      · simp at h
+      · rename_i s bs' hb
+        simp at h
+        obtain ⟨rfl, rfl⟩ := h
+        obtain ⟨hu, hmax, rfl⟩ := decString_ok _ _ _ _ hb
+        refine ⟨rfl, hu, sizeBytes s.length ++ s, ?_, by simp⟩
+        simp [encBody, writeSize_ok _ hmax]
+    | tuple =>
+      simp only [decBody] at h
+      split at h
+      · simp at h
+      · rename_i len bs1 h1
+        split at h
+        · simp at h
+        · rename_i fs bs2 h2
+          simp at h
+          obtain ⟨rfl, rfl⟩ := h
+          obtain ⟨hmax, rfl⟩ := readSize_canonical _ _ _ h1
+          obtain ⟨hlen, hP, body, hbody, rfl⟩ := encMany_of_decMany
+            (encField F (encBody F max' rem))
+            _ (fun a => a.WF F.utf8 wfc) hfield _ _ _ _ h2
+          · refine ⟨rfl, (WFList_iff _ _ _).2 hP, sizeBytes len ++ body, ?_, by simp⟩
+            simp [encBody, hlen, writeSize_ok _ hmax, hbody]
+    | enum =>
+      simp only [decBody] at h
+      split at h
+      · simp at h
+      · rename_i d bs0 h0
+        split at h
+        · simp at h
+        · rename_i len bs1 h1
+          split at h
+          · simp at h
+          · rename_i fs bs2 h2
+            simp at h
+            obtain ⟨rfl, rfl⟩ := h
+            cases bs with
+            | nil => simp [readByte] at h0
+            | cons d' t =>
+              simp [readByte] at h0
+              obtain ⟨rfl, rfl⟩ := h0
+              obtain ⟨hmax, rfl⟩ := readSize_canonical _ _ _ h1
+              obtain ⟨hlen, hP, body, hbody, rfl⟩ := encMany_of_decMany
+                (encField F (encBody F max' rem))
+                _ (fun a => a.WF F.utf8 wfc) hfield _ _ _ _ h2
+              · refine ⟨rfl, (WFList_iff _ _ _).2 hP, d' :: (sizeBytes len ++ body), ?_, by simp⟩
+                simp [encBody, hlen, writeSize_ok _ hmax, hbody]
+    | array =>
+      simp only [decBody] at h
+      split at h
+      · simp at h
+      · rename_i ek bs0 h0
+        split at h
+        · simp at h
+        · rename_i len bs1 h1
+          split at h
+          · simp at h
+          · rename_i es bs2 h2
+            simp at h
+            obtain ⟨rfl, rfl⟩ := h
+            have := readValueKind_ok F.kc hk _ _ _ h0
+            subst this
+            obtain ⟨hmax, rfl⟩ := readSize_canonical _ _ _ h1
+            obtain ⟨hlen, hP, body, hbody, rfl⟩ := encMany_of_decMany
+              (encElem F ek (encBody F max' rem))
+              _ (fun a => a.WF F.utf8 wfc) (helem ek) _ _ _ _ h2
+            · refine ⟨rfl, (WFList_iff _ _ _).2 hP, VK.toU8 F.kc ek :: (sizeBytes len ++ body), ?_, by simp⟩
+              simp [encBody, hlen, writeSize_ok _ hmax, hbody]
+    | map =>
+      simp only [decBody] at h
+      split at h
+      · simp at h
+      · rename_i kk bs0 h0
+        split at h
+        · simp at h
+        · rename_i vk bs00 h00
+          split at h
+          · simp at h
+          · rename_i len bs1 h1
+            split at h
+            · simp at h
+            · rename_i es bs2 h2
+              simp at h
+              obtain ⟨rfl, rfl⟩ := h
+              have := readValueKind_ok F.kc hk _ _ _ h0
+              subst this
+              have := readValueKind_ok F.kc hk _ _ _ h00
+              subst this
+              obtain ⟨hmax, rfl⟩ := readSize_canonical _ _ _ h1
+              obtain ⟨hlen, hP, body, hbody, rfl⟩ := encMany_of_decMany
+                (encEntry F kk vk (encBody F max' rem))
+                _ (fun (e : Value X Y × Value X Y) => e.1.WF F.utf8 wfc ∧ e.2.WF F.utf8 wfc) (hentry kk vk) _ _ _ _ h2
+              · refine ⟨rfl, (WFEntries_iff _ _ _).2 hP, VK.toU8 F.kc kk :: VK.toU8 F.kc vk :: (sizeBytes len ++ body), ?_, by simp⟩
+                simp [encBody, hlen, writeSize_ok _ hmax, hbody]
+    | custom x =>
+      simp only [decBody] at h
+      split at h
+      · simp at h
+      · rename_i c bs' hc
+        simp at h
+        obtain ⟨rfl, rfl⟩ := h
+        obtain ⟨hw, hkind, enc, henc, rfl⟩ := hF.enc_dec _ _ _ _ hc
+        refine ⟨by simp [Value.kind, hkind], hw, enc, ?_, rfl⟩
+        simp [encBody, henc]
 end Radix.Sbor
